@@ -276,3 +276,85 @@ def published_dictionary():
             ndiffs.append((cname, name, iana[int(code)]))
     out.append(("names-match-definitions-py", not ndiffs, ndiffs[:8]))
     return out
+
+
+# =========================================================================================
+#  per-class SUMMARY contracts used at call sites (callers are checked against these, never
+#  against the constructor bodies); each clause restates obligations proved above for the class
+# =========================================================================================
+from pyvc.values import SBytes, SStr, SInt, SObj                      # noqa: E402
+from bromelia.exceptions import (DataTypeError, AVPAttributeValueError, AVPParsingError,     # noqa: E402
+                                 DiameterAvpError)
+
+_SUMMARY_KINDS = {
+    "bytes": lambda v: isinstance(v, (bytes, SBytes)),
+    "str": lambda v: isinstance(v, (str, SStr)),
+    "int": lambda v: isinstance(v, (int, SInt)) and not isinstance(v, bool),
+}
+
+
+def _summary(cls):
+    kind = kind_of(cls)
+    if "parser_data" in cls.__dict__ or "encode" in cls.__dict__ or kind == "Grouped":
+        return
+    if cls.__name__ in ("SessionIdAVP", "AcctMultiSessionIdAVP"):
+        inputs = ("bytes",)
+    elif kind in ("OctetString", "UTF8String", "DiameterIdentity"):
+        inputs = ("bytes", "str")
+    elif kind == "Unsigned32":
+        inputs = ("bytes", "int")
+    elif kind in ("Enumerated", "Integer32", "Unsigned64", "Time", "Address", "DiameterURI"):
+        inputs = ("bytes",)
+    else:
+        return
+    path = cls.__module__ + "." + cls.__name__
+    ref = REF.get(path)
+    if ref is None:
+        return
+    CODE, VENDOR, DFLAGS = cls.code, cls.vendor_id, ref["default_flags"]
+    VALUES = list(getattr(cls, "values", [])) if kind == "Enumerated" else []
+    for inp in inputs:
+        _summary_one(cls, path, kind, inp, CODE, VENDOR, DFLAGS, VALUES)
+
+
+def _summary_one(cls, path, kind, inp, CODE, VENDOR, DFLAGS, VALUES):
+    pred = _SUMMARY_KINDS[inp]
+
+    def accepts(ctx, ns):
+        return pred(ns.get("data"))
+
+    dshape = {"bytes": T.Bytes(maxlen=4096), "str": T.Str(maxlen=1024), "int": T.Int()}[inp]
+
+    @contract(path, prop="C10", name="summary:" + inp)
+    class _S:
+        args = {"data": dshape}
+        at_calls = True
+        proof = "table"
+        accepts_fn = accepts
+        returns = T.Obj(cls, slots={"_flags": T.Const(bytes([DFLAGS])), "_data": T.Bytes(maxlen=8192),
+                                    "_vendor_id": T.Const(VENDOR), "_padding": T.NoneS},
+                        idict={"code": T.Const(CODE), "vendor_id": T.Const(VENDOR)})
+        raises = (DataTypeError, AVPAttributeValueError)
+        assumes = ("per-class summary contracts (C10/<class>[summary:*]) restate, for use at call sites, the "
+                   "clauses proved for that class by the C10 obligations [bytes]/[str]/[int]",)
+
+        def ensures_data(data, result):
+            if inp == "bytes":
+                return result._data == data and wf_data(kind, VALUES, data)
+            if inp == "str":
+                return result._data == data.encode("utf-8")
+            return result._data == be(data, 4) and 0 <= data and data < 4294967296
+
+        def exceptional(data, exc):
+            # string kinds accept every bytes / str value
+            if kind in ("OctetString", "UTF8String", "DiameterIdentity"):
+                return False
+            if inp == "bytes":
+                return not wf_data(kind, VALUES, data)
+            return not (0 <= data and data < 4294967296)
+    _S.accepts = accepts
+    return _S
+
+
+for _c in registered_classes():
+    _summary(_c)
